@@ -53,4 +53,4 @@ LEMMA("make_converter_key_identifies_arguments",
       forall={"ty": "", "h": "", "ty2": "", "h2": ""},
       requires=[lambda ty, h, ty2, h2: implies(id_of(ty) == id_of(ty2), ty == ty2)],
       goal=[(lambda ty, h, ty2, h2: implies(retc("pane.convert:_make_converter_key_f", ty, h) == retc("pane.convert:_make_converter_key_f", ty2, h2),
-                                            ty == ty2 and h == h2), ["C10"])])
+                                            ty == ty2 and h == h2), ["C10", "C18"])])
